@@ -34,6 +34,8 @@ def check(ctx, tier):
     obs += ctx.attempt(lambda c, cl: mergetable.invariants(c, cl, which=('order-free',))[0], ctx, "D-h", default=[])
     obs += ctx.attempt(scanner.nt_document_table, ctx, "D-i", default=[])
     obs += ctx.attempt(loops.every_yielded_item_is_kept, ctx, "D-j", "shexer.core.shexing.class_shexer:ClassShexer._build_shapes", "shape", default=[])
+    from ..rules import profile as _profile
+    obs += ctx.attempt(lambda c, cl: _profile.tables(c, cl, ('permutation',))[0], ctx, "D-i", default=[])
     exceptions.apply(obs)
     floors = [Floor("accumulator increments (+= 1)", counts.get("inc", 0), 9), Floor("accumulation loops", n_loops, 8),
               Floor("memo sites", n_memo, 3), Floor("set constructions", n_sets, 10), Floor("node-identifier uses", n_ids, 15)]
